@@ -91,6 +91,9 @@ fn cmd_check(args: &[String]) -> i32 {
         min_budget_wall: Duration::from_secs(if tier == Tier::Thorough { 240 } else { 60 }),
         max_minimise: if tier == Tier::Thorough { 12 } else { 6 },
     };
+    if args.iter().any(|a| a == "--mkreplays") {
+        return driver::make_known_replays(engine.as_ref(), &spec);
+    }
     driver::run_check(engine.as_ref(), &spec)
 }
 
